@@ -37,7 +37,7 @@ CLAIMS = {
  'C09': ("Certificate theorem + finite facts: over the SSA form of the code regenerated on every run (native: library + REST; js/wasm: library + binding) the analysis of Model/Flow.v finds no comparison (and no call leaving the analysed packages, other than listed output functions) whose operands carry both HMAC-derived and caller-derived data, and no branch on an HMAC-derived condition (explicit flows plus control dependence) that controls a comparison of caller-derived data; "
          "the tainted sets are checked to be closed supersets of the sources and closed_sound / no_leak_sound prove that such a certificate covers every flow path of the fact base (vm_compute on the regenerated facts, unbounded induction over paths).",
          "Partial by nature: time itself is not modelled, only the data-flow statement the property reduces it to; micro-architectural timing and the constant-timeness of crypto/subtle.ConstantTimeCompare are Go's. The edge rules, control dependence and source/barrier classification live in tools/gen_ssa and are trusted to over-approximate explicit data flow (field/index/context-insensitive; table look-ups keyed by data are not tracked). A leak site is reported with the instruction (file:line) as replay and no-failing-input-found, since a timing difference has no single failing input. A second, dynamic engine (a search, not a proof) compares block execution counts of the library, built with go build -cover, across wrong codes that agree with the expected code in their first k characters; a difference is reported with the pair of inputs.", "6 C09"),
- 'C10': ("Unbounded theorems: in the model every Go operation that can panic (index, slice bound, division, negative make) has the explicit outcome Panic, and no exported operation has that outcome for any argument value: DecodeSecret, Generate/Validate HOTP/TOTP (all digits/hash/period/skew/counter/instant values, absent parameters), Generate/Validate OCRA and the derivation (all configurations and inputs), RandomSecret, the input helpers, NewRawSuite / the parser / NewSuite (all strings), the URL builders and ParseOTPAuthURL (all URLs and nil).",
+ 'C10': ("Unbounded theorems: in the model every Go operation that can panic (index, slice bound, division, negative make) has the explicit outcome Panic, and no exported operation has that outcome for any argument value: DecodeSecret, Generate/Validate HOTP/TOTP (all digits/hash/period/skew/counter/instant values, absent parameters), Generate/Validate OCRA and the derivation (all configurations and inputs), RandomSecret, the input helpers, NewRawSuite / the parser / NewSuite (all strings), the URL builders and ParseOTPAuthURL (all URLs and nil). Since the fourth session: a map look-up or insertion counts as a comparison of the key with the stored keys; C09_stateless (mem_ok on the same facts: nothing outlives a call in shared memory, so no accepted or expected code can wait there for a later comparison); a dynamic engine (block execution counts independent of the length of the correct prefix) runs the native validators and, under node, the js/wasm validator.",
          "Hangs are excluded by totality of the model plus the derivation bound of C04; the harness runs a hostile stream (every uint8 enum value, boundary integers, invalid UTF-8, 64 KiB strings, nil/empty/oversized byte fields, arbitrary suite configurations and URLs) under recover() and a per-case watchdog and compares outcome and value with the model. Stack or heap exhaustion is the Go runtime's and is not modelled. For the translated functions the translator puts a panic outcome at every index, slice, division and dereference of the Go text (C10src theorems); for the rest of the library the guards are the modeller's.", "6 C10"),
  'C11': ("Unbounded theorems over a small-step model of the pooled-buffer discipline (any number of library threads, adversary threads that take/overwrite/return pooled buffers, a collector emptying the pool, thread creation at any time): in every reachable state — every interleaving — a buffer is held by at most one thread and is not pooled while held, and the bytes a call reads back into its HMAC are its own arguments; "
          "finite facts with a certificate theorem on the SSA form regenerated on every run (native and js/wasm): no pooled buffer or view of it (unsafe string conversions included) is among the results of the function that took it, every Put is deferred, nothing outside package initialisation writes memory reachable from a package-level variable.",
@@ -62,10 +62,10 @@ CLAIMS = {
          "Out-of-enum challenge formats / password hashes are outside the property; the model still mirrors the code there and the harness compares them.", "6 C14"),
  'C18': ("Unbounded theorems over the REST model (router + ten handlers as request -> now -> response * work): a well-formed request reaches the handler with exactly its decoded fields; the codes the HOTP/TOTP endpoints return are the RFC 4226 values for the request's secret, counter / floor(timestamp/period) (period 0 or absent = 30), digits and hash spellings (unknown = 6 / SHA-1); a code generated by one endpoint validates at the matching endpoint (HOTP, TOTP, OCRA); the suite list, suite description, secret and URL endpoints return the registry, the secret generator's and the URL builder's results.",
          "The model's JSON layer is encoding/json's acceptance rule per DTO field type over a body *shape* (malformed / not an object / object with a value kind per field); tokenizing is Go's json.Valid in the harness. The tie is the real server binary built from the working tree, on loopback, on reused and fresh connections, sequences that differ only in an omitted field, and concurrent bursts compared with their sequential answers. Answers that depend on the server clock are checked against the timestamp the response reports.", "6 C18"),
- 'C19': ("Unbounded theorem: for every request (any method, path, malformed / non-object / object body with any value kind in any field) the handler under the recovery middleware yields a status in {200,302,400,404,405,500}, status 200 exactly for a success body, after at most 21 HMAC derivations whatever skew/period/counter/timestamp the request carries; malformed bodies give 400 on every POST endpoint.",
+ 'C19': ("Unbounded theorem: for every request (any method, path, malformed / non-object / object body with any value kind in any field) the handler under the recovery middleware yields a status in {200,302,400,404,405,500}, status 200 exactly for a success body, after at most 21 HMAC derivations whatever skew/period/counter/timestamp the request carries; malformed bodies give 400 on every POST endpoint. Since the fourth session the ten handlers, the DTO validators, writeError and the router are also translated from internal/app/api on every run (Generated/SrcRest.v, decoders and printers generated from the json tags) and proved equal to the model for every request (Proofs/SrcEqRest.v); Properties/C18src.v restates the property over the translated source; C18_stateless: the service keeps nothing between requests (mem_ok on the regenerated SSA facts).",
          "Partial: 'promptly', 'complete HTTP response' and 'keeps serving' are socket/runtime behaviour the model cannot exhibit (fasthttp timeouts and limits, process liveness); the harness observes them on the real binary: hostile bodies up to 200 kB, every field with every JSON kind, 64-bit extremes, wrong methods and unknown paths, each batch followed by well-formed probes whose answers are checked, a 2 s latency bound per response and a liveness check.", "6 C19"),
  'C20': ("Unbounded theorems: DeriveRFC4226Wasm = deriveRFC4226 for every key, counter, code length and hash value (its own ten-digit modulus and its FormatUint+padding formatter are proved equal to the native table entry and formatter); ValidateOTPWasm and both window loops of the binding accept exactly what the native loops accept; hence each of the five callbacks returns the native code / verdict / URL text for well-typed arguments (integral or fractional numbers with integer part in the stated ranges), "
-         "every call that is not well typed is answered with a string starting with 'error: ', and (finite, on the export table regenerated from otp-js/src/index.js and wasm/main.go) every exported name is bound to the registered global of the same name.",
+         "every call that is not well typed is answered with a string starting with 'error: ', and (finite, on the export table regenerated from otp-js/src/index.js and wasm/main.go) every exported name is bound to the registered global of the same name. Since the fourth session: Properties/C19src.v states the same over the router as translated from the source (answered or panicking only where Recovery answers, with fuel no numeric field of the request enters); C19_stateless: no request can leave anything behind in shared memory (mem_ok on the regenerated SSA facts).",
          "JavaScript values are modelled by type and, for numbers, by what syscall/js Value.Int() returns under Node (truncation; NaN/infinities/out-of-range give MinInt64 — observed, not derived); the freshly built module is run under Node through globalThis and through a copy of the package's own index.js and compared with the model and with the native model on every run. Strings cross the boundary as UTF-8; only valid UTF-8 is exercised. 'leaves the module usable' is checked by the harness (one module instance answers the whole stream).", "6 C20"),
 }
 
